@@ -235,21 +235,182 @@ pub fn run_case(c: &C13Case, n: u64) -> Verdict {
     Verdict::Pass { nontrivial, classes: vec![format!("variants-{}", variants)] }
 }
 
+/// Second case type: order independence of the *walk*. Small trees with file and directory
+/// symlinks (relative, absolute, dangling, cyclic), hidden names and nesting, scanned with
+/// overlapping / repeated roots under -L / -S / --depth / -H; `--rf-over 0` lists every selected
+/// file, so a file lost or duplicated because of the order in which roots or directories are
+/// visited shows up as a different report body.
+#[derive(Clone, Debug, Serialize, Deserialize)]
+pub struct C13Walk {
+    pub walk_tree: TreeSpec,
+    pub nroots: usize,
+    pub extra_roots: Vec<u16>,
+    pub depth: Option<usize>,
+    pub follow: bool,
+    pub symbolic: bool,
+    pub hidden: bool,
+    pub match_links: bool,
+    pub perms: Vec<u16>,
+}
+
+fn walk_strategy() -> BoxedStrategy<C13Walk> {
+    (1usize..=2)
+        .prop_flat_map(|nroots| {
+            (
+                crate::props::c09::tree_s(nroots, false),
+                proptest::collection::vec(0u16..u16::MAX, 1..4),
+                prop::option::weighted(0.6, 1usize..5),
+                prop::bool::weighted(0.7),
+                prop::bool::weighted(0.3),
+                prop::bool::weighted(0.3),
+                prop::bool::weighted(0.3),
+                proptest::collection::vec(0u16..u16::MAX, 3),
+            )
+                .prop_map(move |(walk_tree, extra_roots, depth, follow, symbolic, hidden, match_links, perms)| C13Walk {
+                    walk_tree,
+                    nroots,
+                    extra_roots,
+                    depth,
+                    follow,
+                    symbolic,
+                    hidden,
+                    match_links,
+                    perms,
+                })
+        })
+        .boxed()
+}
+
+pub fn run_walk(c: &C13Walk, n: u64) -> Verdict {
+    let cd = CaseDir::new("c13w", n, Fs::Tmpfs);
+    let tree = cd.tree();
+    let built = c.walk_tree.build(&tree);
+    let dirs: Vec<std::path::PathBuf> = built.entries.iter().filter(|e| e.kind == BuiltKind::Dir).map(|e| e.abs.clone()).collect();
+    let mut roots: Vec<OsString> = root_paths(&tree, c.nroots).into_iter().map(|p| p.into_os_string()).collect();
+    for s in &c.extra_roots {
+        if !dirs.is_empty() {
+            roots.push(dirs[crate::util::pick(*s, dirs.len())].clone().into_os_string());
+        }
+    }
+    let mut base: Vec<OsString> = vec!["--rf-over".into(), "0".into()];
+    if let Some(d) = c.depth {
+        base.push("--depth".into());
+        base.push(d.to_string().into());
+    }
+    if c.follow {
+        base.push("-L".into());
+    }
+    if c.symbolic {
+        base.push("-S".into());
+    }
+    if c.hidden {
+        base.push("--hidden".into());
+    }
+    if c.match_links {
+        base.push("-H".into());
+    }
+    let run = |roots: &[OsString], threads: Option<&str>, stdin: bool| -> (Out, String) {
+        let mut r = Run::fclones(&cd).arg("group").args(&base);
+        if let Some(t) = threads {
+            r = r.arg("--threads").arg(t);
+        }
+        if stdin {
+            r = r.arg("--stdin");
+            let input: Vec<u8> = roots.iter().flat_map(|x| [crate::run::os_bytes(x), b"\n".to_vec()].concat()).collect();
+            let cmd = format!("printf '%s\\n' {} | {}", roots.iter().map(|x| x.to_string_lossy().to_string()).collect::<Vec<_>>().join(" "), r.cmdline());
+            (r.stdin(input).run(), cmd)
+        } else {
+            r = r.args(roots);
+            let cmd = r.cmdline();
+            (r.run(), cmd)
+        }
+    };
+    let (o0, cmd0) = run(&roots, Some("1"), false);
+    if o0.timed_out {
+        return Verdict::Inconclusive("timeout".into());
+    }
+    if o0.crashed() {
+        return Verdict::fail("crash", format!("{}\n{}", cmd0, o0.brief()));
+    }
+    if !o0.ok() {
+        return Verdict::Discard("rejected".into());
+    }
+    let body0 = text_body(&o0.stdout);
+    let mut variants: Vec<(Vec<OsString>, Option<&str>, bool)> = vec![];
+    for (i, p) in c.perms.iter().enumerate() {
+        variants.push((permute(&roots, *p), if i % 2 == 0 { Some("1") } else { None }, false));
+    }
+    let mut rev = roots.clone();
+    rev.reverse();
+    variants.push((rev.clone(), Some("1"), false));
+    variants.push((rev, None, true));
+    variants.push((roots.clone(), Some("main:1"), true));
+    for (rs, t, stdin) in &variants {
+        let (o, cmd) = run(rs, *t, *stdin);
+        if o.timed_out {
+            return Verdict::Inconclusive("timeout".into());
+        }
+        if o.crashed() || !o.ok() {
+            return Verdict::fail("variant-fails", format!("{}\n{}", cmd, o.brief()));
+        }
+        let b = text_body(&o.stdout);
+        if b != body0 {
+            let a = String::from_utf8_lossy(&body0).to_string();
+            let bb = String::from_utf8_lossy(&b).to_string();
+            let listing: Vec<String> = built
+                .entries
+                .iter()
+                .map(|e| format!("{}{}", e.abs.strip_prefix(&tree).unwrap_or(&e.abs).display(), match e.kind { BuiltKind::Dir => "/", BuiltKind::Symlink => "@", _ => "" }))
+                .collect();
+            let mut sig = vec!["walk-order".to_string()];
+            if c.follow {
+                sig.push("follow-links".into());
+            }
+            if c.depth.is_some() {
+                sig.push("depth".into());
+            }
+            return Verdict::Fail {
+                clause: "body-differs-walk-order".into(),
+                detail: format!("reference: {}\nvariant:   {}\nreference body:\n{}\nvariant body:\n{}\ntree: {}", cmd0, cmd, a, bb, listing.join(" ")),
+                sig,
+            };
+        }
+    }
+    let listed = String::from_utf8_lossy(&body0).lines().filter(|l| l.starts_with("    ")).count();
+    let has_dir_link = built.entries.iter().any(|e| e.kind == BuiltKind::Symlink && std::fs::metadata(&e.abs).map(|m| m.is_dir()).unwrap_or(false));
+    let mut classes = vec!["walk-order".to_string()];
+    if c.follow {
+        classes.push("walk-follow-links".into());
+    }
+    if c.depth.is_some() {
+        classes.push("walk-depth".into());
+    }
+    if has_dir_link {
+        classes.push("walk-directory-symlink".into());
+    }
+    Verdict::Pass { nontrivial: listed >= 2 && roots.len() >= 2 && (c.follow || c.depth.is_some()), classes }
+}
+
 pub fn check(tier: Tier) -> i32 {
     let ctx = Ctx::new("C13", tier);
     // normal runs take ~20 ms; 25 s is three orders of magnitude above that
     crate::run::DEFAULT_TIMEOUT_S.store(25, std::sync::atomic::Ordering::Relaxed);
     replay_corpus::<C13Case, _>(&ctx, run_case);
     drive(&ctx, "main", tier.pick(480, 4000), || case_strategy(tier), run_case);
+    replay_corpus::<C13Walk, _>(&ctx, run_walk);
+    drive(&ctx, "walk-order", tier.pick(1500, 20000), walk_strategy, run_walk);
     cleanup_process_scratch();
     ctx.finish(
         "exploration",
-        "proptest-generated trees of 20-90 (quick) / 20-150 (thorough) files incl. hard links and near-duplicates x fixed selection options; metamorphic oracle: the report body (everything but the timestamp/command/version lines) is byte-identical across 2 repetitions, 5-7 thread-pool specifications (always incl. all pools of size 1 and of size 64), 2 permutations of the roots and --stdin; the partition (set of path-sets with lengths) is identical across 3-4 tunings (hash fn, max-prefix/suffix, pinned device, cache); every run must exit; a run exceeding the 60 s watchdog is a violation only if all its threads are asleep without CPU progress. Non-trivial = >=3 groups, >=40 files and a size-1 pool among the variants.",
+        "proptest-generated trees of 20-90 (quick) / 20-150 (thorough) files incl. hard links and near-duplicates x fixed selection options; metamorphic oracle: the report body (everything but the timestamp/command/version lines) is byte-identical across 2 repetitions, 5-7 thread-pool specifications (always incl. all pools of size 1 and of size 64), 2 permutations of the roots and --stdin; the partition (set of path-sets with lengths) is identical across 3-4 tunings (hash fn, max-prefix/suffix, pinned device, cache); every run must exit; a run exceeding the 60 s watchdog is a violation only if all its threads are asleep without CPU progress. Non-trivial = >=3 groups, >=40 files and a size-1 pool among the variants. Second generator (walk order): small trees with file/directory symlinks (relative, absolute, dangling, cyclic), hidden names, nesting 0-4, scanned with overlapping and repeated roots under -L / -S / --depth / --hidden / -H and --rf-over 0 (every selected file is listed); the body must be identical for 3 permutations of the roots, their reversal, --threads 1 / main:1 / default pools and --stdin; non-trivial there = >=2 listed files, >=2 roots and -L or --depth.",
         &["hangs are observed only under schedules the OS happens to produce", "no transform in this check (C01/C03 cover it)"],
     )
 }
 
 pub fn replay(file: &std::path::Path) -> i32 {
+    if load_case::<C13Walk>(file).is_some() {
+        return replay_one::<C13Walk, _>("C13", file, run_walk);
+    }
     replay_one::<C13Case, _>("C13", file, run_case)
 }
 
